@@ -137,10 +137,10 @@ def run(ctx):
     for k, v in r["stats"].items():
         if k.startswith("family_"):
             base = k[7:].split("+")
-            fam["templates_hit"] = fam.get("templates_hit", 0) + (1 if len(base) == 1 and not base[0].startswith("rand_") else 0)
+            fam["templates_hit"] = fam.get("templates_hit", 0) + (1 if len(base) == 1 and not base[0].startswith(("rand_", "touch_")) else 0)
             for m in base[1:]:
                 fam["mutation_" + m] = fam.get("mutation_" + m, 0) + v
-            if base[0].startswith("rand_"):
+            if base[0].startswith(("rand_", "touch_")):
                 fam[base[0]] = fam.get(base[0], 0) + v
     dist = {k: v for k, v in r["stats"].items() if not k.startswith("family_")}
     dist.update(fam)
